@@ -501,6 +501,118 @@ impl ReplDriver {
         Pair { w, r, wbytes: vec![] }
     }
 
+    /// Replay one behaviour exported by TLC from spec/HcStore.tla with Role = "replica": the remote
+    /// writer grows (`grow n`), the replica applies honest proofs (`apply hasblk i up`: block i
+    /// with the nodes the replica says it misses, and/or an upgrade to the writer's current
+    /// length), closes, reopens, and crashes at the program counter the model names.  Calls that
+    /// do not crash in the behaviour get the configured fault enumeration as side branches.
+    pub fn replica_behaviour(&mut self, gen: Value, hist: &Value, fc: &FaultCfg) {
+        self.rec().emit(json!({"e":"reset","gen":gen}));
+        self.rec().count("histories", 1);
+        let kp = test_key_pair();
+        let (w, _) = Core::create("w", VDisk::new(), kp.clone());
+        let (r, _) = Core::create("r", VDisk::new(), public_only(&kp));
+        let mut p = Pair { w, r, wbytes: vec![] };
+        let vw = p.w.view();
+        self.rec().emit(json!({"e":"create","c":"w","key":"k1","writable":true,"view":vw}));
+        let vr = p.r.view();
+        self.rec().emit(json!({"e":"create","c":"r","key":"k1","writable":false,"view":vr}));
+        let mut lin = Lineage { start: Start::Images(p.r.disk.images()), ops: vec![] };
+        let steps = hist.as_array().unwrap().clone();
+        let mut i = 0;
+        while i < steps.len() {
+            let st = steps[i].as_array().unwrap();
+            let name = st[0].as_str().unwrap();
+            let next = steps.get(i + 1).map(|s| s[0].as_str().unwrap().to_string());
+            match name {
+                "grow" => {
+                    let n = st[1].as_u64().unwrap();
+                    let blocks: Vec<Vec<u8>> = (0..n)
+                        .map(|k| {
+                            let idx = p.wbytes.len() as u64 + k;
+                            vec![idx as u8 + 1; 1 + (idx % 3) as usize]
+                        })
+                        .collect();
+                    p.wbytes.extend(blocks.iter().map(|b| b.len() as u64));
+                    self.plain_w(&mut p, &Op::Batch(blocks));
+                }
+                "apply" => {
+                    let hasblk = st[1].as_u64().unwrap() == 1;
+                    let blk = st[2].as_u64().unwrap();
+                    let up = st[3].as_u64().unwrap() == 1;
+                    let (rlen, wlen) = (p.r.len(), p.w.len());
+                    let req = Req {
+                        block: if hasblk {
+                            Some(RequestBlock { index: blk, nodes: p.r.missing_nodes(blk).unwrap_or(0) })
+                        } else {
+                            None
+                        },
+                        hash: None,
+                        seek: None,
+                        upgrade: if up { Some(RequestUpgrade { start: rlen, length: wlen - rlen }) } else { None },
+                    };
+                    let proof = match self.make_proof(&mut p, &req) {
+                        Some(pr) => pr,
+                        None => {
+                            self.rec().count("rbeh_cut", 1);
+                            return;
+                        }
+                    };
+                    if matches!(next.as_deref(), Some("crash") | Some("torn")) {
+                        // the behaviour's own crash: the storage operations of the call up to the
+                        // program counter the model names, then reopen
+                        let pc = steps[i + 1][1].as_str().unwrap().to_string();
+                        let torn = next.as_deref() == Some("torn");
+                        let op = Op::Proof { proof: Box::new(proof), meta: req.meta("proof") };
+                        let opj = op_json(&op);
+                        let pre = p.r.disk.images();
+                        let j0 = p.r.disk.journal_len();
+                        exec(&mut p.r, &op);
+                        let jops = p.r.disk.journal_from(j0);
+                        let k = prefix_for_pc(&jops, &pc);
+                        let mut img = pre;
+                        for o in &jops[..k] {
+                            apply(&mut img, o);
+                        }
+                        let mut cut: i64 = -1;
+                        if torn && k < jops.len() {
+                            if let JKind::Write { data, .. } = &jops[k].kind {
+                                cut = (data.len() / 2).min(40) as i64;
+                                apply_torn(&mut img, &jops[k], cut as usize);
+                            }
+                        }
+                        let mut ev = json!({"e":"crashopen","c":"r","op":opj,"ks":[k],"m":jops.len(),"cut":cut,"pc":pc});
+                        let (c2, res) = Core::open("r", VDisk::from_images(img.clone()));
+                        p.r = c2;
+                        ev["open"] = open_json(&res);
+                        if let OpenResult::Ok = res {
+                            ev["view"] = p.r.view();
+                        }
+                        self.rec().count("crash_points", 1);
+                        self.rec().emit(ev);
+                        if !matches!(res, OpenResult::Ok) {
+                            return;
+                        }
+                        lin = Lineage { start: Start::Images(img), ops: vec![] };
+                        i += 2;
+                        continue;
+                    }
+                    self.apply_honest(&mut p, &req, proof, fc, &mut lin);
+                }
+                "open" => {
+                    if i > 0 && steps[i - 1][0] == "close" {
+                        self.plain_r(&mut p, &Op::Reopen);
+                        lin.ops.push(Op::Reopen);
+                    }
+                }
+                _ => {}
+            }
+            i += 1;
+        }
+        // whatever the behaviour left: the replica can still be completed from the writer
+        self.rec().count("rbeh_paths", 1);
+    }
+
     pub fn tour_run(&mut self, gen: Value, hist: &Value) {
         let steps = hist.as_array().unwrap().clone();
         // main line, logged
@@ -1297,12 +1409,12 @@ pub fn run(args: &[String]) {
         cont: true,
         max_points: 0,
     };
-    let tour_lines: Vec<String> = if mode == "tour" {
+    let tour_lines: Vec<String> = if mode == "tour" || mode == "rbeh" {
         std::fs::read_to_string(&input).unwrap().lines().map(|s| s.to_string()).collect()
     } else {
         vec![]
     };
-    if mode == "tour" {
+    if mode == "tour" || mode == "rbeh" {
         runs = tour_lines.len();
     }
     for r in 0..runs {
@@ -1319,8 +1431,14 @@ pub fn run(args: &[String]) {
         match mode.as_str() {
             "tour" => {
                 let hist: Value = serde_json::from_str(&tour_lines[r]).unwrap();
-                let gen = json!({"drv":"abs","args":format!("repl --mode tour --in {input} --only {r}")});
+                let gen = json!({"drv":"abs","hist":hist.clone(),"args":format!("repl --mode tour --in {input} --only {r}")});
                 rd.tour_run(gen, &hist)
+            }
+            "rbeh" => {
+                let hist: Value = serde_json::from_str(&tour_lines[r]).unwrap();
+                let gen = json!({"drv":"abs","hist":hist.clone(),"args":format!("repl --mode rbeh --in {input} --only {r}{}",
+                    if faults.is_empty() { String::new() } else { format!(" --faults {faults}") })});
+                rd.replica_behaviour(gen, &hist, &fc)
             }
             "honest" => rd.honest_run(gen, &g, &fc, false),
             "forge" => rd.honest_run(gen, &g, &FaultCfg::none(), true),
